@@ -94,8 +94,13 @@ def flatten_list(lst):
     return out
 
 
-def predict(meta, fail_ordinals):
-    """Reference trace: list of (hook name, event type, is_clean, success flag for post-operation)."""
+KEY_POSITIONS = ("before-cert", "after-order", "before-challenges")
+
+
+def predict(meta, fail_ordinals, key_position="before-cert"):
+    """Reference trace: list of (hook name, event type, is_clean, success flag for post-operation).
+    The property does not say *when* a new private key is written relative to the challenges: the three
+    plausible places are all accepted (judge() tries each)."""
     flat, aflat = meta["flat"], meta["acct_flat"]
     af = bool(meta["allow_failure"])
     ctype = meta["ident"][1]
@@ -126,11 +131,14 @@ def predict(meta, fail_ordinals):
             ok = write_file(aflat, "acct_file")
         elif att in meta.get("acct_edit_attempts", []):
             ok = write_file(aflat, "acct_file")
+        if ok and key_position == "before-challenges":
+            ok = write_file(flat, "key")
         if ok:
             ok = run_event(flat, "challenge-" + ctype, "chal")
         if ok:
             ok = run_event(flat, "challenge-" + ctype + "-clean", "clean")
-        if ok:
+        if ok and key_position in ("after-order", "before-cert"):
+            # (after-order = before finalize: the same position in the hook trace as before-cert when nothing fails in between)
             ok = write_file(flat, "key")
         if ok:
             ok = write_file(flat, "crt")
@@ -146,7 +154,13 @@ def judge(req, obs):
     for i, h in enumerate(hooks):
         if h.get("answer", "ok").startswith("exit:") and h["answer"] != "exit:0":
             fail_ord.add(i)
+    got_tags = [h.get("tag") for h in hooks]
     pred = predict(m, fail_ord)
+    for kp in KEY_POSITIONS:
+        cand = predict(m, fail_ord, kp)
+        if [p[0] for p in cand] == got_tags:
+            pred = cand
+            break
     shape = "list=%s|af=%s" % ("+".join(m["top"]) or "none", m["allow_failure"])
     fail_ctx = "nofail"
     if fail_ord:
@@ -261,8 +275,13 @@ def run(ctx):
         for sel in itertools.product(catalogue, repeat=n):
             lists.append(list(sel))
     if ctx.quick:
-        # keep all singletons and pairs but drop pairs of two groups (covered in thorough)
+        # keep all singletons and pairs but drop pairs of two groups (covered in thorough); when no event triggers
+        # both entries of a pair their relative order cannot be observed: one order only
+        def types_of(e):
+            return set(t for h in flatten_list([e]) for t in PALETTE[h])
+        order = {e: i for i, e in enumerate(catalogue)}
         lists = [l for l in lists if not (len(l) == 2 and l[0] in GROUPS and l[1] in GROUPS)]
+        lists = [l for l in lists if not (len(l) == 2 and not (types_of(l[0]) & types_of(l[1])) and order[l[0]] > order[l[1]])]
     if not ctx.quick:
         # triples: only those containing at least one file-typed and one challenge-typed entry (others add no new interleaving)
         def interesting(l):
